@@ -5,6 +5,7 @@ mod cli_model;
 mod core;
 mod gen;
 mod lib_props;
+mod locks;
 mod solve_props;
 
 use crate::core::*;
